@@ -619,6 +619,30 @@ func sameTextInAnotherAttribute(data []gen.DataSpec) []*hist.History {
 	return out
 }
 
+// mutualRecursion builds two templates that call each other (the recursion is guarded by the
+// data) out of pieces that change the context, and executes them in both orders.
+func mutualRecursion(c *core.Ctx, cf cfg, r *core.Rng) {
+	pieces := []string{"", "", "x", "<b", "<", ` title="`, `"`, ">", "<object>", "<p>", "</p>", "{{$.S0}}", "<b>", `<a href="`, "/p?q=", "<i title='", "'>"}
+	pk := func() string { return pieces[r.Intn(len(pieces))] }
+	t0 := pk() + `{{template "t1" .}}` + pk()
+	if r.Intn(3) == 0 {
+		t0 = pk() + `{{if $.C1}}` + pk() + `{{else}}{{template "t1" .}}` + pk() + `{{end}}` + pk()
+	}
+	t1 := pk() + `{{if $.C0}}` + pk() + `{{else}}` + pk() + `{{with $.N}}{{template "t0" .}}{{end}}` + pk() + `{{end}}` + pk()
+	text := `{{define "t0"}}` + t0 + `{{end}}{{define "t1"}}` + t1 + `{{end}}{{define "page"}}<p>{{template "t0" .}}</p>{{end}}`
+	data := hist.GenData(r, 1)
+	for _, order := range [][]string{{"t0", "t1", "page"}, {"t1", "t0", "page"}, {"page", "t1", "t0"}} {
+		h := &hist.History{Data: data, NVar: 2}
+		h.Ops = []hist.Op{{Kind: "new", H: -1, Dst: 0, Name: "root"}, {Kind: "parse", H: 0, Dst: 0, Text: text}}
+		for _, m := range order {
+			h.Ops = append(h.Ops, hist.Op{Kind: "exect", H: 0, Dst: -1, Name: m, Data: 0})
+		}
+		c.Count("histories_over_two_templates_that_call_each_other", 1)
+		c.Journal(util.JSON(kase{History: h}))
+		judge(c, cf, h, false)
+	}
+}
+
 // budgetHistories returns histories over a set whose members are analysed at a cost near the
 // analysis budget of the engine: whether a member is within the budget, and whether small
 // members stay analysable, must not depend on what was executed before. (Ranges over a
@@ -658,6 +682,10 @@ func run(c *core.Ctx, cf cfg) {
 				c.Journal(util.JSON(kase{History: h}))
 				judge(c, cf, h, false)
 			}
+		}
+		rm := c.Rng("mutual-recursion")
+		for i := 0; i < c.N(6000, 120000)/c.NShards; i++ {
+			mutualRecursion(c, cf, rm)
 		}
 		rd := c.Rng("derived-names")
 		for i := 0; i < c.N(1500, 30000)/c.NShards; i++ {
